@@ -9,6 +9,7 @@ arbitrary `Oracle`.  `repaired` is the code after the five `fix:` commits of thi
 -/
 import StyluaModel.Lemmas.Parser
 import StyluaModel.Lemmas.Paren
+import StyluaModel.Generated.OpTables
 
 namespace StyluaModel.C05
 open StyluaModel StyluaModel.ParenRule StyluaModel.Prec StyluaModel.ParenLemmas Expr
@@ -165,5 +166,23 @@ example : fmtS repaired .std (bin .caret (paren (paren (un .minus (atom 0)))) (c
 example : dropOK .binLhsExp (.binL .caret) = true ∧ okAt (.binL .caret) (paren (un .minus (atom 0))) = true := by decide
 example : sem (paren (paren (call 3))) = .trunc (.call 3) := by decide
 example : okAt (.binL .lt) (assert (atom 1)) = false ∧ okAt (.binL .lt) (paren (assert (atom 1))) = true := by decide
+
+/-! ## the precedence table is full_moon's (translated on every run) -/
+
+/-- name of an operator in the generated tables -/
+def binOpName : BinOp → String
+  | .caret => "caret" | .percent => "percent" | .slash => "slash" | .star => "star" | .dslash => "dslash"
+  | .minus => "minus" | .plus => "plus" | .concat => "concat" | .shl => "shl" | .shr => "shr" | .band => "band"
+  | .bxor => "bxor" | .bor => "bor" | .gt => "gt" | .ge => "ge" | .lt => "lt" | .le => "le" | .ne => "ne"
+  | .eq => "eq" | .and => "and" | .or => "or"
+
+/-- **the model's precedences and associativities are the ones the linked full_moon reports**
+(`BinOp::precedence`, `BinOp::is_right_associative`, `UnOp::precedence`, observed through the harness and written
+to `Generated/OpTables.lean` on every run): for every operator of the model -/
+theorem C05_prec_table (op : BinOp) :
+    (binOpName op, op.prec, op.rassoc) ∈ Generated.binOpPrec ∧ unPrec = Generated.unOpPrec ∧
+    Generated.binOpPrec.length = 21 := by
+  refine ⟨?_, by decide, by decide⟩
+  cases op <;> decide
 
 end StyluaModel.C05
